@@ -107,6 +107,13 @@ def _check(prop: str, tier: str) -> int:
 
 
 def main(argv=None) -> int:
+    # the reports quote pieces of the inputs the rules feed the analysed code (paths with bytes that are not UTF-8, control
+    # characters): whatever they hold, the report must come out as text
+    for stream in (sys.stdout, sys.stderr):
+        try:
+            stream.reconfigure(errors="backslashreplace")
+        except (AttributeError, ValueError):
+            pass
     ap = argparse.ArgumentParser(prog="sa")
     sub = ap.add_subparsers(dest="cmd", required=True)
     c = sub.add_parser("check")
